@@ -15,7 +15,11 @@ LEVEL_TEXT = ("Theorems (Lean 4, any linearly ordered field) about the construct
               "displayed _params entry (stored as given; ig_display_differs shows plain equality is false). "
               "The model is tied to the constructors on every run (accept / reject + exception class, stored _params, "
               "limits, and the solved probe Source -> component -> ILoad certified against the model's laws).")
-LEVEL_NOTE = "consequence clause (Loss >= 0, Efficiency <= 100, passive |Vout| <= |Vin|) is checked on light-load probe systems; overload without polarity guard (F02-F05) belongs to C03"
+LEVEL_NOTE = ("consequence clause: proved for whole systems (Props/C11System) - every system whose components all come out of the constructor model, in an exact "
+              "steady state of a well-formed tree, shows Power, Loss >= 0 in every row (`built_rows_nonneg`, no exclusion), no passive element (series loss, switch, "
+              "mux, rectifier) inverting or amplifying its input (`built_passive_no_amplify`, no exclusion), Loss <= Power and efficiency within [0,100] per row and in the "
+              "System total (`built_rows_physical_partial`, `built_total_eff_le_100_partial`; partial only through the recorded findings F01 / F35, each refuted on a "
+              "witness built through the constructors); on the implementation the clause is checked on light-load probe systems")
 MODULE = "SysLoss.Props.C11"
 THEOREMS = ["SysLoss.C11." + t for t in (
     "reject_eff_const", "reject_linreg_dropout", "reject_rload_zero", "reject_rs_list_pmux", "reject_rs_list_rectifier",
@@ -26,7 +30,12 @@ THEOREMS = ["SysLoss.C11." + t for t in (
     "reject_limits_rload", "reject_limits_rloss", "reject_limits_vloss", "reject_limits_converter",
     "reject_limits_linreg", "reject_limits_pswitch", "reject_limits_pmux", "reject_limits_rectifier_diode",
     "reject_limits_rectifier_mosfet", "reject_table_linreg_iq_nokey", "accepted_normalised", "sign_insensitive",
-    "sign_insensitive_ig_partial", "ig_display_differs")]
+    "sign_insensitive_ig_partial", "ig_display_differs",
+    # Props/C11System: the consequence clause, starting from constructor calls
+    "BuiltFrom.phys", "BuiltFrom.compsOK", "pl_eff_spec", "getEff_range", "built_rows_nonneg", "built_rows_physical_partial",
+    "built_rows_physical_full_fails", "built_rows_loss_le_power_partial", "built_rows_loss_le_power_full_fails",
+    "built_passive_no_amplify", "built_total_eff_le_100_partial", "built_total_loss_le_power_partial")]
+MODULES = ["SysLoss.Props.C11", "SysLoss.Props.C11System"]
 RULE = ("type-directed constructor calls for all 11 kinds: 70% valid (random sign on every magnitude-type argument, int/float/bool "
         "forms, scalar / list / 1-D / 2-D table forms, optional limits), 30% malformed: one rejection cause of the property injected "
         "(two thirds) or one type confusion (string / None / list / number where another type is expected, degenerate table shapes); "
